@@ -263,16 +263,16 @@ theorem inv_step {tbl : List (α × α)} (hinj : TableInj tbl) {s s' : St α} {l
         rw [hc] at hen
         simp only [Bool.and_eq_true, lockFree, Bool.not_true, Bool.false_or, Option.isNone_iff_eq_none,
           beq_iff_eq] at hen
-        have hlock := hen.1.1
+        obtain ⟨⟨hlock, hrem⟩, htook⟩ := hen
+        subst hrem
+        subst htook
         unfold rxCleanupF
-        simp only [hen.1.2, hen.2, and_self, if_true]
+        simp only [and_self, if_true]
         split
-        · split
-          · refine ⟨?_, inv.ans, inv.ansSet, ?_, ?_, inv.seqs⟩
-            · intro p hp; exact inv.keys p (mem_eraseKey hp)
-            · intro e' he'; simp at he'
-            · intro h1; simp [hlock] at h1
-          · exact ⟨inv.keys, inv.ans, inv.ansSet, inv.park, inv.parkHold, inv.seqs⟩
+        · refine ⟨?_, inv.ans, inv.ansSet, ?_, ?_, inv.seqs⟩
+          · intro p hp; exact inv.keys p (mem_eraseKey hp)
+          · intro e' he'; simp at he'
+          · intro h1; simp [hlock] at h1
         · exact ⟨inv.keys, inv.ans, inv.ansSet, inv.park, inv.parkHold, inv.seqs⟩
       · exact inv
     | closeBegin =>
